@@ -883,6 +883,21 @@ class Flow:
                         if rr is not None:
                             found = True
                             merge(rr)
+                    elif kind == 'index' and isinstance(expr, ast.Call):
+                        # a, b = helper(...): the idx-th element of the
+                        # tuples the helper returns
+                        callee = self.resolve_call(expr, sc)
+                        if callee is not None:
+                            cb = self._bind_args(expr, callee, sc, b, depth,
+                                                 set())
+                            for r in self._returns(callee):
+                                if isinstance(r, ast.Tuple) and idx < len(
+                                        r.elts):
+                                    rr = self.record(r.elts[idx], callee,
+                                                     cb, depth + 1, _seen)
+                                    if rr is not None:
+                                        found = True
+                                        merge(rr)
                 return out if found else None
             return None
         return None
